@@ -4,3 +4,4 @@ From FI Require Import AutoTraits AutoTraitsSpec TypesGen.
 Eval vm_compute in ("UNSOUND"%string, unsound_summary structs impls).
 Eval vm_compute in ("INCOMPLETE"%string, incomplete_summary structs impls).
 Eval vm_compute in ("UNPINNED"%string, unpinned_futures structs impls).
+Eval vm_compute in ("ERASED"%string, erased_summary structs impls).
